@@ -90,6 +90,8 @@ N1_BODIES_EXTRA = [
     (('op', 'R', 1, None), ('op', 'X', 0, None), ('op', 'X', 0, None), ('op', 'X', 0, None)),
     # two parallel nested blocks and an operation that follows the first of them
     (('sub', 1, (('op', 'X', 0, None),)), ('sub', 1, (('op', 'R', 1, None),)), ('op', 'X90', 2, ('FB', 0))),
+    # a block without content
+    (),
 ]
 
 
